@@ -104,6 +104,8 @@ class ReservoirCalculate(_ReservoirBase):
             "depth_kept_when_cool_enough": Implies(temperature_at(s, d0, n) <= R.Tmax.value, d1 == d0),
             "time_vector": And(Len(tv) == N, Len(R.Tresoutput.value) == N, tv[0] == 0.0,
                                ForAll(0, N - 1, lambda i: tv[i + 1] >= tv[i]), ForAll(0, N, lambda i: tv[i] >= 0.0)),
+            # np.linspace(0, L, N): evenly spaced (stated without division)
+            "time_vector_evenly_spaced": ForAll(0, N, lambda i: tv[i] * (N - 1) == ToReal(i) * L),
             "injection_temperature_gain": s.model.wellbores.Tinj.value
             == s.old.model.wellbores.Tinj.value + s.model.wellbores.tempgaininj.value,
         }
